@@ -786,3 +786,103 @@ func paramNamed(f *ssa.Function, name string) *ssa.Parameter {
 	}
 	return nil
 }
+
+func init() {
+	register(&Rule{
+		ID: "DUR-5",
+		Doc: "The library never turns syncing off on the caller's behalf: every store into StorePersistOptions.NoSync in library code stores the constant false " +
+			"(compact forcing a sync when CompactionSync is set). A computed or true value would let a round whose caller asked for a sync publish an unsynced footer.",
+		Props: []string{"C05", "C04"},
+		Floor: 1,
+		Run:   ruleDur5,
+	})
+	register(&Rule{
+		ID: "DUR-6",
+		Doc: "File names are never reused: outside the Store literal of openStore, every store to Store.nextFNameSeq writes the field's own current value plus a positive constant. " +
+			"createNextFileLOCKED opens FormatFName(nextFNameSeq) with O_TRUNC, so a counter that can fall back truncates a live data file that is still mapped and referenced by the footer.",
+		Props: []string{"C05", "C06", "C07"},
+		Floor: 1,
+		Run:   ruleDur6,
+	})
+}
+
+func ruleDur5(c *Ctx) []*Ob {
+	o := newObs(c, "DUR-5")
+	fNoSync := c.Field("StorePersistOptions", "NoSync")
+	for _, f := range c.Funcs {
+		if c.isHarness(f) {
+			continue
+		}
+		for _, a := range fieldAccesses(f, func(v *types.Var) bool { return v == fNoSync }) {
+			if a.Kind == "load" {
+				continue
+			}
+			ok := false
+			if a.Kind == "store" {
+				if k, isK := a.Val.(*ssa.Const); isK && k.Value != nil && k.Value.String() == "false" {
+					ok = true
+				}
+			}
+			why := "stores the constant false: syncing can only be switched on"
+			if !ok {
+				why = "NoSync is written with a value that is not the constant false (" + a.Kind + " " + accessPath(a.Val) + "): the caller's request to sync the round can be overridden, and the footer published without a sync"
+			}
+			o.add(c.fname(f), "write StorePersistOptions.NoSync", c.instrPos(a.Instr), ok, why)
+		}
+	}
+	if len(o.list) == 0 {
+		o.trivial("-", "no library write of StorePersistOptions.NoSync", "-", "nothing to decide")
+	}
+	return o.list
+}
+
+func ruleDur6(c *Ctx) []*Ob {
+	o := newObs(c, "DUR-6")
+	fSeq := c.Field("Store", "nextFNameSeq")
+	for _, f := range c.Funcs {
+		if c.isHarness(f) {
+			continue
+		}
+		for _, a := range fieldAccesses(f, func(v *types.Var) bool { return v == fSeq }) {
+			if a.Kind == "load" {
+				continue
+			}
+			construct := "write Store.nextFNameSeq"
+			if a.Kind == "store" && isFreshAlloc(a.Base) {
+				o.trivial(c.fname(f), construct+" (literal)", c.instrPos(a.Instr), "initialisation of a new Store")
+				continue
+			}
+			ok := false
+			if a.Kind == "store" {
+				if b, isB := a.Val.(*ssa.BinOp); isB && b.Op == token.ADD {
+					x, y := b.X, b.Y
+					if _, isK := x.(*ssa.Const); isK {
+						x, y = y, x
+					}
+					if k, isK := y.(*ssa.Const); isK && k.Value != nil {
+						if n, exact := constInt64(k); exact && n > 0 {
+							for _, og := range origins(x) {
+								if fv, base := loadedField(og); fv == fSeq && canonKey(base) == canonKey(a.Base) {
+									ok = true
+								}
+							}
+						}
+					}
+				}
+			}
+			why := "the counter only grows (own value + positive constant)"
+			if !ok {
+				why = "nextFNameSeq is written with something other than its own value plus a positive constant (" + accessPath(a.Val) + "): a sequence number can be handed out twice, and createNextFileLOCKED truncates the live file of that name"
+			}
+			o.add(c.fname(f), construct, c.instrPos(a.Instr), ok, why)
+		}
+	}
+	return o.list
+}
+
+func constInt64(k *ssa.Const) (int64, bool) {
+	if k.Value == nil {
+		return 0, false
+	}
+	return k.Int64(), true
+}
